@@ -10,7 +10,9 @@
 (* `pre` of a step is the projection of the REAL list the call sequence was made on   *)
 (* (= what the previous step of the chain left behind).  A case is judged by          *)
 (* SLFailing, a step by SLPFailing of Selection.tla; clauses failing for a form of    *)
-(* calling that the docstrings do not document are marked "nongating/".              *)
+(* calling that the docstrings do not document are marked "nongating/", and so is a  *)
+(* disagreement between the real combine_arrlist and its mechanism model about       *)
+(* raising / what is left in the caller's list (a lead, never a verdict).            *)
 EXTENDS Selection, Json, IOUtils
 
 VARIABLES blk, tid
@@ -27,7 +29,8 @@ Next == PickBlock \/ PickTrace
 
 FailingRec(r) ==
     IF r.kind = "case"
-    THEN {(IF SLGating(r.c) THEN "" ELSE "nongating/") \o cl : cl \in SLFailing(r.c, r.obs)}
+    THEN {(IF SLGating(r.c) THEN "" ELSE "nongating/") \o cl : cl \in SLFailing(r.c, r.obs)} \cup
+         {"nongating/" \o cl : cl \in (IF r.c.fn = "combine" THEN SLMDisagrees(r.c, r.obs) ELSE {})}
     ELSE SLPFailing(r.pre, r.op, r.obs)
 
 Check == tid > 0 =>
